@@ -56,6 +56,22 @@ let () =
               | _ -> raise (Shape "query")) (list_ qs))
       | _ -> raise (Shape "undercut args"))
 
+(* tworeadings <expr> <wordbreaks> <cmds> ((words prefix)...) -> (0|1 ...)   Spec/TwoReadings.v: does the command line meet a
+   point where a typed word has two readings (a complete word read by two different items, the cursor at such a point, or a
+   within-word expression with two readings of a piece)? *)
+let () =
+  register "tworeadings" (fun v ->
+      match v with
+      | List [e; wb; cmds; qs] ->
+          let e = expr_of e in
+          let en = env_of wb cmds in
+          List (List.map (fun q ->
+              match q with
+              | List [ws; _] ->
+                  Atom (if Extracted.TwoReadings.two_readings en (M.start e) (words ws) then "1" else "0")
+              | _ -> raise (Shape "query")) (list_ qs))
+      | _ -> raise (Shape "tworeadings args"))
+
 let () =
   register "paths" (fun v ->
       match v with
